@@ -170,7 +170,26 @@ def cls_where_nonunit_lbound_fullrange(case):
     return False
 
 
+def cls_where_reads_element_of_assigned_array(case):
+    """An array assigned inside the WHERE is also referenced in the same
+    construct (mask or a right-hand side) through scalar subscripts, e.g.
+    'where (d(0:5,:) <= -d(m,m+1)) d(:,:) = ...'. Fortran evaluates the
+    mask and each right-hand side completely before assigning; the lowered
+    loop nest re-evaluates the element after it may have been modified."""
+    for blk in where_blocks(case["module"]):
+        flat = blk.replace("==", "~~").replace("/=", "~~") \
+                  .replace("<=", "~~").replace(">=", "~~")
+        assigned = set(re.findall(r"\b([a-z_]\w*)\s*(?:\([^()]*\))?\s*=",
+                                  flat))
+        for mat in re.finditer(r"\b([a-z_]\w*)\(([^()]*)\)", blk):
+            if mat.group(1) in assigned and ":" not in mat.group(2):
+                return True
+    return False
+
+
 CLASSIFIERS = {
+    "where_reads_element_of_assigned_array":
+        cls_where_reads_element_of_assigned_array,
     "where_strided_section": cls_where_strided,
     "where_nonunit_lower_bound": cls_where_nonunit_lbound_fullrange,
 }
